@@ -51,7 +51,9 @@ def case(seed, idx, res, tier):
         res["features"][f"verdict:{r.exitcode}"] += 1
         for f in t.features:
             res["features"]["gen:" + f] += 1
-        reachable = t.can_fail and ((t.failure.startswith("panic") and (not codes or int(t.failure[5:], 16) in codes)) or not t.failure.startswith("panic"))
+        bnd = e2e.mk_bounds(ov)
+        in_bounds = any(all(e2e.within_bounds(ty, v, n, bnd) for (n, ty), v in zip(t.fn.params, p)) for p in t.planted)
+        reachable = in_bounds and t.can_fail and ((t.failure.startswith("panic") and (not codes or int(t.failure[5:], 16) in codes)) or not t.failure.startswith("panic"))
         if reachable:
             res["distinct"].append(f"{idx}:{t.fn.sig}:{t.kind}")
             res["counters"]["tests_with_reachable_failure"] += 1
@@ -63,7 +65,7 @@ def case(seed, idx, res, tier):
             continue
         res["counters"]["clean_pass"] += 1
         lengths = None
-        w = e2e.judge_pass(rng, spec, setup, t, codes, res, nrand=4 if tier == "quick" else 12, lengths=lengths)
+        w = e2e.judge_pass(rng, spec, setup, t, codes, res, nrand=4 if tier == "quick" else 12, lengths=lengths, overrides=ov)
         if w is not None:
             res["violations"].append(dict(what="PASS without warning although a concrete admissible input makes the test fail", key=f"pass:{t.kind}:{t.failure}", index=idx,
                                           test=t.fn.sig, kind=t.kind, failure=t.failure, config={k: str(v) for k, v in ov.items()}, failing_input=w, runtime=spec.runtime().hex()))
